@@ -231,8 +231,30 @@ var exoticNames = []string{"select", "From", "ORDER", "my col", "a-b", "x.y", "t
 	"likes", "minimum", "summary", "unions", "ending", "cases", "begins", "uniques", "t_select", "x_from", "my_table", "is_null",
 	"Database_Name", "DISTINCT_USERS", "Ordering"}
 
+// words that are reserved or type names in other SQL dialects but ordinary
+// identifiers in mkdb's
+var foreignWords = strings.Fields(`text string integer smallint tinyint float double real decimal numeric char character date time
+	timestamp datetime interval blob binary bool bit serial key primary foreign references index constraint default check drop alter
+	add column view trigger if is between all any some except intersect natural cross using over partition window row rows
+	first last next only top percent escape collate cast convert to of at by_ do go for each new old user role grant revoke
+	begin_ rollback savepoint work transaction schema catalog domain type enum array json xml uuid money bytea name value
+	level result status comment end_ final public temporary temp replace ignore explain analyze vacuum pragma limit_ len
+	length lower upper abs mod now current year month day hour minute second zone true_ false_ unknown none nil void`)
+
 // IdentX is Ident with, now and then, a name that needs double quotes.
 func IdentX(t *rapid.T, label string, pool []string) string {
+	if rapid.IntRange(0, 15).Draw(t, label+"_foreign") == 0 {
+		w := rapid.SampledFrom(foreignWords).Draw(t, label+"_fw")
+		if okIdent(w) {
+			switch rapid.IntRange(0, 3).Draw(t, label+"_fwcase") {
+			case 0:
+				return strings.ToUpper(w)
+			case 1:
+				return strings.ToUpper(w[:1]) + w[1:]
+			}
+			return w
+		}
+	}
 	if rapid.IntRange(0, 11).Draw(t, label+"_exotic") == 0 {
 		return rapid.SampledFrom(exoticNames).Draw(t, label+"_x")
 	}
